@@ -104,12 +104,43 @@ def shard_file(path, outdir, tag):
 REJECT_RE = re.compile(r'<<"REJECT", (\d+)>>')
 
 
-def validate_shard(shard, idx, wdir, timeout):
+def restricted_spec(wdir, props):
+    """tla/ApiTrace.tla dispatches to the judge modules of all properties.  A check only needs its own:
+    generate a copy restricted to `props` (same text otherwise), so that one property's judge module
+    cannot break the validation of another."""
+    src = open(os.path.join(TLA, "ApiTrace.tla")).read()
+    name = "ApiTrace_" + "_".join(props)
+    out = []
+    for line in src.splitlines():
+        m = re.match(r"\s+JC02, JC03.*", line)
+        if m:
+            out.append("        " + ", ".join("J" + p for p in props))
+            continue
+        if re.match(r"\s+JC\d\d, ", line):
+            continue
+        m = re.match(r'\s+(CASE|\[\]) e\.p = "(C\d+)" -> (.*)', line)
+        if m:
+            if m.group(1) == "CASE":
+                out.append("  CASE FALSE -> FALSE")
+            if m.group(2) in props:
+                out.append("    [] e.p = \"%s\" -> %s" % (m.group(2), m.group(3)))
+            continue
+        if "GhostC08" in line and "C08" not in props:
+            line = "  IN base"
+        out.append(line.replace("MODULE ApiTrace ", "MODULE %s " % name))
+    spec = os.path.join(wdir, name + ".tla")
+    open(spec, "w").write("\n".join(out) + "\n")
+    shutil.copy(os.path.join(TLA, "ApiTrace.cfg"), os.path.join(wdir, name + ".cfg"))
+    return spec, os.path.join(wdir, name + ".cfg")
+
+
+def validate_shard(shard, idx, wdir, timeout, props):
     path, base, count = shard
     meta = os.path.join(wdir, "meta_%d" % idx)
     env = dict(os.environ, TRACE=path)
-    cmd = tlc_cmd(1, meta, ["-config", os.path.join(TLA, "ApiTrace.cfg"), os.path.join(TLA, "ApiTrace.tla")], heap="3g")
-    out, dt = run(cmd, cwd=TLA, env=env, timeout=timeout, check=False)
+    spec, cfg = restricted_spec(wdir, props)
+    cmd = tlc_cmd(1, meta, ["-config", cfg, spec], heap="3g")
+    out, dt = run(cmd, cwd=wdir, env=env, timeout=timeout, check=False)
     shutil.rmtree(meta, ignore_errors=True)
     gen, dist = parse_states(out)
     if "Model checking completed. No error has been found." not in out or dist != count + 1:
@@ -118,11 +149,11 @@ def validate_shard(shard, idx, wdir, timeout):
     return dict(path=path, base=base, count=count, rejects=rejects, states=dist, transitions=gen, wall=dt)
 
 
-def validate_trace(path, wdir, tag, par=6, timeout=1800):
+def validate_trace(path, wdir, tag, props, par=6, timeout=1800):
     shards, n = shard_file(path, os.path.join(wdir, "shards"), tag)
     res = []
     with cf.ThreadPoolExecutor(max_workers=par) as ex:
-        futs = [ex.submit(validate_shard, s, i, wdir, timeout) for i, s in enumerate(shards)]
+        futs = [ex.submit(validate_shard, s, i, wdir, timeout, props) for i, s in enumerate(shards)]
         for f in futs:
             res.append(f.result())
     return res, n
@@ -232,16 +263,16 @@ def check_r2(prop, tier, seed, spec):
     r1_results = []
 
     # R1 in the background while the harness builds
-    r1_specs = [r for r in spec.get("r1", []) if tier in r[4]]
+    r1_specs = [r for r in spec.get("r1", []) if tier in r.get("tiers", ("quick", "thorough"))]
     pool = cf.ThreadPoolExecutor(max_workers=2)
-    r1_futs = [pool.submit(run_model, os.path.join(TLA, r[0]), os.path.join(TLA, r[1]), r[2], r[3], wdir) for r in r1_specs]
+    r1_futs = [(r, pool.submit(run_model, os.path.join(TLA, r["spec"]), os.path.join(TLA, r["cfg"]), r.get("workers", 6), r.get("timeout", 900), wdir, r.get("heap", "8g"))) for r in r1_specs]
 
     outcome_counts = {}
     for profile, label in (("release", "rel"), ("chk", "chk")):
         binpath, bdt = cargo_build(spec["bin"], profile)
         trace = os.path.join(wdir, "trace_%s.ndjson" % label)
         rdt = record(binpath, tier, seed, trace, extra=spec.get("record_args", {}).get(tier))
-        res, n = validate_trace(trace, wdir, label)
+        res, n = validate_trace(trace, wdir, label, spec.get("judges", [prop]))
         totals["events"] += n
         totals["shards"] += len(res)
         rej_lines = []
@@ -259,7 +290,7 @@ def check_r2(prop, tier, seed, spec):
                 forms.add(e.get("form"))
                 k = e.get("k")
                 outcome_counts[k] = outcome_counts.get(k, 0) + 1
-                h = hashlib.blake2b(line.split('"form"', 1)[-1].encode(), digest_size=8).digest()
+                h = hashlib.blake2b(re.sub(r'"(form|prof)":"[^"]*",', "", line).encode(), digest_size=8).digest()
                 if h not in distinct:
                     distinct.add(h)
                     if nontriv(e):
@@ -276,8 +307,12 @@ def check_r2(prop, tier, seed, spec):
                 violations.append((label, ln, lines[ln]))
         log("[%s] %s: build %.0fs, recorded %d events in %.1fs, validated by TLC in %d shard(s), %d rejected" % (prop, label, bdt, n, rdt, len(res), len(rej_lines)))
 
-    for fut in r1_futs:
+    for rspec, fut in r1_futs:
         r = fut.result()
+        if "expect_violation" in rspec:
+            # vacuity guard: the named invariant says "the rare path is never taken"; TLC must refute it
+            r["ok"] = ("Invariant %s is violated" % rspec["expect_violation"]) in r["out"]
+            r["vacuity_guard"] = rspec["expect_violation"]
         r1_results.append({k: v for k, v in r.items() if k != "out"})
         if not r["ok"]:
             # a failed design-level run is a defect of the model or a tool problem, never a verdict on the code
